@@ -54,3 +54,7 @@ impl EventLog {
 pub fn boundary(name: &str) {
     teos_common::verif::point(name);
 }
+
+/// Index of the operation the E1 driver is executing (usize::MAX while bootstrapping / between
+/// operations); read by the crash-point recorder.
+pub static CUR_OP: std::sync::atomic::AtomicUsize = std::sync::atomic::AtomicUsize::new(usize::MAX);
